@@ -149,6 +149,7 @@ type FV struct {
 	nameSuffix   string
 	lockKeys     []string
 	refKinds     map[string]string
+	guardOf      map[string]string // map value term -> mutex ref term guarding it
 }
 
 type LoopInfo struct {
